@@ -1,9 +1,141 @@
-// crate::rt::execution::verif
+// crate::rt::execution::verif -- Execution worlds for harnesses, the deadlock
+// detector (C05), reset between iterations (C16).
 #![allow(dead_code, unused_imports)]
 
 use super::*;
+use crate::rt::thread::verif as tv;
+use crate::rt::verif::{le, max_raw, vharness, vv, vv_raw};
+#[cfg(not(kani))]
+use crate::rt::verif::kani_shim as kani;
+use crate::rt::MAX_THREADS;
 
 /// A fixed execution id (the real `Id::new` draws from a global counter).
 pub(crate) fn id(n: usize) -> Id {
     Id(n)
+}
+
+/// A real Execution (constructed by `Execution::new`) with `n` threads and the
+/// fixed execution id used by `thread::verif::tid`.
+pub(crate) fn mk_exec(n: usize, max_branches: usize, preemption_bound: Option<usize>) -> Execution {
+    let mut e = Execution::new(MAX_THREADS, max_branches, preemption_bound, true);
+    e.id = id(tv::EXEC_ID);
+    let old = std::mem::replace(&mut e.threads, tv::mk_set(n));
+    std::mem::forget(old);
+    e
+}
+
+/// Replace the thread set (e.g. by one with symbolic clocks).
+pub(crate) fn set_threads(e: &mut Execution, set: thread::Set) {
+    let old = std::mem::replace(&mut e.threads, set);
+    std::mem::forget(old);
+}
+
+// ------------------------------------------------------------ C05: deadlock detector
+
+/// World: 3 threads with symbolic states (0 Runnable, 1 Runnable+token,
+/// 2 Blocked, 3 Yield, 4 Terminated) and yield counts, no pending operations,
+/// `active` was running.  Returns (execution, codes).
+fn detector_world(active: usize) -> (Execution, [u8; 3], [usize; 3]) {
+    let mut e = mk_exec(3, 4, None);
+    tv::activate(&mut e.threads, active);
+    let mut codes = [0u8; 3];
+    let mut yc = [0usize; 3];
+    let mut t = 0;
+    while t < 3 {
+        let c: u8 = kani::any();
+        kani::assume(c <= 4);
+        codes[t] = c;
+        let y: usize = kani::any();
+        kani::assume(y <= 2);
+        yc[t] = y;
+        tv::th(&mut e.threads, t).state = tv::state_from_code(c);
+        tv::th(&mut e.threads, t).yield_count = y;
+        t += 1;
+    }
+    (e, codes, yc)
+}
+
+fn can_step(c: u8) -> bool {
+    c == 0 || c == 1 || c == 3
+}
+
+fn no_deadlock_case(active: usize) {
+    let (mut e, codes, yc) = detector_world(active);
+    let any_can = can_step(codes[0]) || can_step(codes[1]) || can_step(codes[2]);
+    let all_done = codes[0] == 4 && codes[1] == 4 && codes[2] == 4;
+    // reference: no deadlock in this state
+    kani::assume(any_can || all_done);
+    let switched = e.schedule();
+    if all_done {
+        assert!(switched);
+        assert!(tv::active_index(&e.threads).is_none());
+    } else {
+        let next = tv::active_index(&e.threads);
+        assert!(next.is_some());
+        let n = next.unwrap();
+        assert!(n < 3 && can_step(codes[n]));
+        let any_runnable = codes[0] <= 1 || codes[1] <= 1 || codes[2] <= 1;
+        // the running thread keeps running while it is runnable (no gratuitous pre-emption)
+        if codes[active] <= 1 {
+            assert!(n == active);
+        }
+        // a yielded thread is chosen only when nobody is runnable
+        if codes[n] == 3 {
+            assert!(!any_runnable);
+        }
+        // among runnable candidates the one that yielded least is preferred
+        if codes[active] > 1 && any_runnable {
+            let mut t = 0;
+            while t < 3 {
+                if codes[t] <= 1 {
+                    assert!(yc[n] <= yc[t]);
+                }
+                t += 1;
+            }
+        }
+        assert!(switched == (n != active));
+        // every other yielded thread is runnable again afterwards; nobody else changes
+        let mut t = 0;
+        while t < 3 {
+            let after = tv::state_code(&tv::th_ref(&e.threads, t).state);
+            if codes[t] == 3 && t != n {
+                assert!(after == 0);
+            } else {
+                assert!(after == codes[t]);
+            }
+            t += 1;
+        }
+    }
+    kani::cover!(all_done, "all threads finished");
+    kani::cover!(!all_done && codes[active] == 2, "running thread just blocked, another one takes over");
+    kani::cover!(!all_done && codes[0] == 3 && codes[1] == 3 && codes[2] >= 2, "only yielded threads can run");
+    std::mem::forget(e);
+}
+
+vharness! {
+    /// @prop C05,C18 @tier quick @mode fast @cost 2 @funcs Execution::schedule,Path::branch_thread,Set::set_active,Thread::set_runnable @bounds 3 threads, every combination of thread states {Runnable,Runnable+token,Blocked,Yield,Terminated} and yield counts 0..2, no pending operations, thread 0 was running
+    /// no false deadlock: whenever some thread can step (or all have finished) schedule() does not raise the deadlock assertion, picks a thread that can step, prefers the running thread, picks a yielded thread only if nobody is runnable, and re-activates the other yielded threads.
+    #[cfg_attr(kani, kani::unwind(8))]
+    fn schedule_no_false_deadlock_t0() { no_deadlock_case(0) }
+}
+
+vharness! {
+    /// @prop C05,C18 @tier quick @mode fast @cost 2 @funcs Execution::schedule @bounds as schedule_no_false_deadlock_t0, thread 1 was running
+    /// no false deadlock, non-initial running thread.
+    #[cfg_attr(kani, kani::unwind(8))]
+    fn schedule_no_false_deadlock_t1() { no_deadlock_case(1) }
+}
+
+vharness! {
+    /// @prop C05 @tier quick @mode fast @cost 2 @funcs Execution::schedule @must_fail "deadlock; threads" @bounds 3 threads, every combination of states in which nobody can step and somebody is Blocked
+    /// no missed deadlock: when no thread is Runnable or Yield and not all are Terminated, schedule() never returns normally.
+    #[cfg_attr(kani, kani::unwind(8))]
+    fn schedule_no_missed_deadlock() {
+        let (mut e, codes, _yc) = detector_world(2);
+        let any_can = can_step(codes[0]) || can_step(codes[1]) || can_step(codes[2]);
+        let all_done = codes[0] == 4 && codes[1] == 4 && codes[2] == 4;
+        kani::assume(!any_can && !all_done);
+        e.schedule();
+        assert!(false, "VERIF_MARKER: schedule returned from a deadlocked state");
+    }
 }
